@@ -1,6 +1,6 @@
 (* C08 — property theorems (statements only; proofs live in Proofs*.v).  See notes/C08.md for the status of each. *)
 From Coq Require Import List ZArith QArith Qabs Bool.
-Require Import QV.C08.Model QV.C08.Spec QV.C08.Wf QV.C08.Proofs QV.C08.ProofsVec QV.C08.ProofsRev QV.C08.ProofsConst QV.C08.ProofsTotal QV.C08.ProofsProper QV.C08.ProofsCtor QV.C08.Hist QV.C08.ProofsHist QV.C08.ProofsTrafo QV.C08.ProofsConstT QV.C08.ProofsTotalT QV.C08.ProofsTable QV.C08.ProofsPar QV.C08.ProofsOp QV.C08.ProofsFlat QV.C08.ProofsDen QV.C08.ProofsSimple QV.C08.ProofsHistT QV.C08.Lin QV.C08.ProofsLin QV.C08.ProofsLinDen QV.C08.ProofsDedup QV.C08.ProofsLinHist QV.C08.ProofsR2 QV.C08.ProofsMirror QV.C08.ProofsOkb QV.C08.ProofsSubset.
+Require Import QV.C08.Model QV.C08.Spec QV.C08.Wf QV.C08.Proofs QV.C08.ProofsVec QV.C08.ProofsRev QV.C08.ProofsConst QV.C08.ProofsTotal QV.C08.ProofsProper QV.C08.ProofsCtor QV.C08.Hist QV.C08.ProofsHist QV.C08.ProofsTrafo QV.C08.ProofsConstT QV.C08.ProofsTotalT QV.C08.ProofsTable QV.C08.ProofsPar QV.C08.ProofsOp QV.C08.ProofsFlat QV.C08.ProofsDen QV.C08.ProofsSimple QV.C08.ProofsHistT QV.C08.Lin QV.C08.ProofsLin QV.C08.ProofsLinDen QV.C08.ProofsDedup QV.C08.ProofsLinHist QV.C08.ProofsR2 QV.C08.ProofsMirror QV.C08.ProofsOkb QV.C08.ProofsSubset QV.C08.ProofsRecipe.
 Import ListNotations.
 Open Scope Q_scope.
 
@@ -416,7 +416,7 @@ Print Assumptions C08_multi_wellformed.
 
 (* ---- get_subset_for_channels, ALL classes and nestings (closes C08_subset_partial): the restricted waveform is well
    formed, has exactly the requested channels, the duration of the original, and samples like it on [0, duration) at
-   every time the executable guard [tg] admits (no ReversedWaveform on the path of the channel is asked at its local
+   every time the executable guard [tg] allows (no ReversedWaveform on the path of the channel is asked at its local
    time 0 = the class of C08_subset_refuted); without ReversedWaveform nodes: the clause in full ---- *)
 Theorem C08_subset : forall w cs w', okb w = true -> canonb w = true -> cs <> [] -> get_subset w cs = OK w' ->
   okb w' = true /\ (forall c, inb c (channels w') = inb c cs) /\ duration w' == duration w /\
@@ -427,3 +427,23 @@ Theorem C08_subset_norev : forall w cs w', okb w = true -> canonb w = true -> no
   get_subset w cs = OK w' -> forall c t, inb c cs = true -> 0 <= t -> t < duration w -> oQeq (sample w' c t) (sample w c t).
 Proof. exact get_subset_sound_norev. Qed.
 Print Assumptions C08_subset_norev.
+
+Theorem C08_from_table_wellformed : forall c tab w', from_table c tab = OK w' -> good w'.
+Proof. exact from_table_good. Qed.
+Print Assumptions C08_from_table_wellformed.
+Theorem C08_from_operator_wellformed : forall l o r w', good l -> good r -> duration l == duration r -> from_operator l o r = OK w' ->
+  good w' /\ (forall c, inb c (channels w') = inb c (channels (WArith l o r))) /\ duration w' == duration l.
+Proof. exact from_operator_good. Qed.
+Print Assumptions C08_from_operator_wellformed.
+
+(* ---- C08_constructors_statement, proved for every recipe without transformation / reversal / get_subset nodes
+   ([plainR]; any nesting of table (validated or not), constant, function, sequence, multi-channel, repetition,
+   SubsetWaveform, arithmetic, functor, negation; every node built by the optimising OR the plain constructor): the built
+   waveform is well formed, has the channels and the duration of the plain composite and samples like it on [0, duration).
+   With reversal the unguarded statement is false (C08_constructors_refuted); with transformations / get_subset the single
+   steps are C08_from_transformation and C08_subset, their composition over recipes is not proved. ---- *)
+Theorem C08_constructors_partial : forall r w wp, plainR r = true -> build r = OK w -> build_plain r = OK wp ->
+  okb w = true /\ (forall c, inb c (channels w) = inb c (channels wp)) /\ duration w == duration wp /\
+  forall c t, inb c (channels wp) = true -> 0 <= t -> t < duration wp -> oQeq (sample w c t) (sample wp c t).
+Proof. exact constructors_plain_recipes. Qed.
+Print Assumptions C08_constructors_partial.
